@@ -150,6 +150,25 @@ def _has_active_fact(cl, recv='condition_stack'):
     return False
 
 
+def mute_guards(ctx):
+    """#mute / #emit change the mute state only in selected branches (shared with C03)."""
+    pc = ctx.repo.func(CS + '.process_condition')
+    r3 = resolver(ctx, pc, inline=False)
+    n = 0
+    for c in ast.walk(pc.node):
+        if isinstance(c, ast.Call) and unparse(c.func) in ('self._increment_mute_counter', 'self._decrement_mute_counter'):
+            n += 1
+            cl = facts_at(ctx, pc, c, r3)
+            which = 'mute' if 'increment' in unparse(c.func) else 'unmute'
+            ctx.check(_has_active_fact(cl), f'guard:{which}', pc.site(c),
+                      f'#{which if which == "mute" else "emit/#unmute"} changes the mute state only in a selected branch', describe_facts(cl))
+            kind = 'MutePreprocessorCondition' if which == 'mute' else 'UnmutePreprocessorCondition'
+            ok = any(('isinstance', 'condition', kind, True) in cc for cc in cl)
+            ctx.check(ok, f'guard:{which}:dispatch', pc.site(c), f'the counter is {"raised" if which == "mute" else "lowered"} for a {kind}', describe_facts(cl))
+    if n < 2:
+        ctx.refute('guard:mute-dispatch', pc.site(), '#mute raises and #emit/#unmute lowers the mute counter', f'{n} counter calls in process_condition')
+
+
 def c08_3(ctx):
     ctx.rule('C08.3', 'directive side effects happen only in selected branches', 8)
     fac = ctx.repo.func(FACT)
@@ -186,14 +205,7 @@ def c08_3(ctx):
         cl = facts_at(ctx, load, node, r2)
         ctx.check(_has_active_fact(cl), 'guard:#include', load.site(node), '#include is followed only when the condition stack is currently active',
                   f'include handled under: {describe_facts(cl)}')
-    # mute changes
-    pc = ctx.repo.func(CS + '.process_condition')
-    r3 = resolver(ctx, pc, inline=False)
-    for c in ast.walk(pc.node):
-        if isinstance(c, ast.Call) and unparse(c.func) in ('self._increment_mute_counter', 'self._decrement_mute_counter'):
-            cl = facts_at(ctx, pc, c, r3)
-            ctx.check(_has_active_fact(cl), f'guard:{unparse(c.func).split("_")[2]}-mute', pc.site(c),
-                      '#mute / #emit change the mute state only in selected branches', describe_facts(cl))
+    mute_guards(ctx)
     # compilable flag of every non-condition line object = current activity
     sts = [n for n in walk_no_nested(load.node) if isinstance(n, ast.Assign) and unparse(n.targets[0]) == 'lobj.compilable']
     ok = len(sts) == 1 and unparse(sts[0].value) == 'condition_stack.currently_active(preprocessor)'
